@@ -336,6 +336,9 @@ func (it *Interp) bindParams(formals []*Node, args []Value, ctx *execCtx, env *E
 		case KPatElem:
 			v := arg(args, i)
 			if v == Undefined && p.B != nil {
+				if p.A.K == KIdent && isAnonFn(p.B) {
+					it.trap(Known.ParamDefaultName, "C02-param-default-name")
+				}
 				v = it.evalNamed(p.B, ctx, p.A)
 			}
 			it.bindTarget(p.A, v, ctx, env, assign)
